@@ -125,6 +125,21 @@ theorem diff_inter (a b c : SetTrie) (ha : a.wf = true) (hb : b.wf = true) (hc :
   rw [has_diff a _ q ha hbc, has_inter b c q hb hc, has_union _ _ q hab hac, has_diff a b q ha hb,
     has_diff a c q ha hc]
   cases has q a <;> cases has q b <;> cases has q c <;> rfl
+/-- successive differences remove the union (`managed.Difference` chains) -/
+theorem diff_diff (a b c : SetTrie) (ha : a.wf = true) (hb : b.wf = true) (hc : c.wf = true) :
+    equals (diff (diff a b) c) (diff a (union b c)) = true := by
+  have hab := wf_diff a b ha hb
+  have hbc := wf_union b c hb hc
+  refine eq_of_pointwise (wf_diff _ c hab hc) (wf_diff a _ ha hbc) (fun q => ?_)
+  rw [has_diff _ c q hab hc, has_diff a b q ha hb, has_diff a _ q ha hbc, has_union b c q hb hc]
+  cases has q a <;> cases has q b <;> cases has q c <;> rfl
+/-- what was removed shares nothing with what remains -/
+theorem diff_inter_removed (a b : SetTrie) (ha : a.wf = true) (hb : b.wf = true) :
+    equals (inter (diff a b) b) empty = true := by
+  have hd := wf_diff a b ha hb
+  refine eq_of_pointwise (wf_inter _ b hd hb) wf_empty (fun q => ?_)
+  rw [has_inter _ b q hd hb, has_diff a b q ha hb, has_empty]
+  cases has q a <;> cases has q b <;> rfl
 /-- a set is the union of its part inside `b` and its part outside `b` (the split the updater
 makes between fields another manager also owns and fields it owns alone) -/
 theorem inter_union_diff (a b : SetTrie) (ha : a.wf = true) (hb : b.wf = true) :
